@@ -108,6 +108,17 @@ def main(tier):
         return rep.finish()
     n = 100 if tier == "quick" else 2500
     scns = [scenario(rng, k) for k in range(n)]
+    # a long-lived project: many hundreds of recorded versions go through one archive / restore (quick: 700; thorough: 5,200,
+    # as all versions and as each task's newest)
+    for j, (nb, latest) in enumerate([(700, False)] if tier == "quick" else [(5200, False), (2100, True), (1025, False)]):
+        brng = random.Random(rng.randrange(1 << 30))
+        sel = {"task": None, "latest": latest}
+        scns.append({"project": G.base_project(brng), "tag": [n + j, "bulk", latest], "steps": [
+            G.run_step(brng, 100, target="//:all", again=False, p_fail=0.0), {"cmd": "bulk", "n": nb},
+            {"cmd": "archive", "argv": ["archive"] + (["--latest"] if latest else []) + ["-o", "../A.tar.gz"], "out": "../A.tar.gz", "sel": sel},
+            {"cmd": "copyproject", "name": "p2"},
+            {"cmd": "restore", "argv": ["restore", "../A.tar.gz"], "archive": "../A.tar.gz", "project": "p2", "if_exists": "../A.tar.gz"},
+            {"cmd": "roundtrip", "project": "p2", "sel": sel, "if_exists": "../A.tar.gz"}]})
     hists, traces, verdicts, tr, other, nontriv = F.run_and_judge(rep, scns, CLAUSES, sig_fn=sig)
     rts = sum(1 for t in traces for s in t["steps"] if s["cmd"] == "roundtrip")
     rep.cov.update({
